@@ -17,6 +17,7 @@ import NeoModel.Proofs.QueueCounters
 import NeoModel.Proofs.QueueFair
 import NeoModel.Proofs.QueueNoExt
 import NeoModel.Proofs.QueueDrift
+import NeoModel.Proofs.QueueWake
 import NeoModel.Proofs.ChainAdd
 import NeoModel.Model.StateSync
 import NeoModel.Proofs.StateSyncRestore
@@ -327,6 +328,45 @@ example :
   · exact ⟨el 1 2, by decide, rfl, rfl⟩
   · exact ⟨el 2 0, by decide, rfl, rfl⟩
   · exact ⟨el 3 1, by decide, rfl, rfl⟩
+
+/-- C20 (queue, which Puts wake `Run` and what a wake-up achieves — every schedule). A `Put` signals `checkBlocks`
+iff it passes the two window tests (`height_read < index ≤ height_read + cacheSize`, queue not discarded): the
+element may be stored, replace a stale one, or be thrown away as a duplicate of what is queued — it signals all
+the same (`put_signals`, `put_silent` in Proofs/QueueWake.lean). For EVERY interleaving without Discard — producers
+with stale heights, external chain additions at any moment, `Run` anywhere in its loop, also holding a stale
+height — : if after such a `Put` the indices `(height, m]` are queued with valid elements, `Run` alone brings the
+chain to `m`. So the known finding `stuck-ext` is exactly the remaining case: an external addition makes the
+queued blocks contiguous with the chain while `Run` sleeps, and NO window-passing `Put` (not even a duplicate)
+follows. (Seeded change C20-m7 removes the signal from the duplicate case and thereby widens that case.) -/
+theorem queue_put_wakes_run (cap h0 : Nat) (hc : 0 < cap) (as : List Act) (hnd : ∀ a ∈ as, a ≠ .disc)
+    (e : Elem) (hr m : Nat) :
+    let s := exec (init cap h0) as
+    let s' := apply s (.put e hr)
+    min hr s.height < e.idx → e.idx ≤ min hr s.height + cap → Filled s' m → ∃ n, m ≤ (runN n s').height := by
+  intro s s' h1 h2 hf
+  have hi : Inv s := inv_exec _ as (inv_init cap h0 hc)
+  have ho : Offer s := offer_exec _ as (inv_init cap h0 hc) (offer_init cap h0)
+  have hd : s.discarded = false := nd_exec _ as hnd rfl
+  have hcap : s.cap = cap := exec_cap _ _
+  have hpc : s.pc ≠ .done := by
+    intro e'
+    have := done_exec (init cap h0) as (by intro e; simp [init] at e) e'
+    rw [hd] at this; cases this
+  obtain ⟨f1, _, _, f4⟩ := put_frame s e (min hr s.height)
+  refine reaches_of_signal s' m (inv_apply s _ hi) (offer_apply s _ hi ho) ?_ hf ?_ ?_
+  · show (put s e (min hr s.height)).discarded = false
+    rw [f4]; exact hd
+  · exact put_signals s e _ hd h1 (by rw [hcap]; exact h2)
+  · show (put s e (min hr s.height)).pc ≠ .done
+    rw [f1]; exact hpc
+
+-- non-vacuity: the schedule of `queue_stuck_after_external_add_witness` (12, 13 queued, `Run` asleep, another writer
+-- adds 11) followed by a duplicate of 13: the duplicate is thrown away, but it wakes `Run`, which applies 12 and 13
+example :
+    let as : List Act := [.run, .put (el 12 0) 10, .put (el 13 1) 10, .run, .run, .run, .adv]
+    let s' := apply (exec (init 4 10) as) (.put (el 13 7) 11)
+    (exec (init 4 10) as).pc = .wait ∧ (exec (init 4 10) as).signal = false ∧
+    s'.ring (posOf 4 13) = some (el 13 1) ∧ (runN 12 s').height = 13 := by decide
 
 end NeoModel.Queue
 
